@@ -37,7 +37,7 @@ from io import BytesIO
 from common import VERIF, blit, llit, slit, zlit
 
 ID = 'C05'
-GEN = ['Gen_path.v', 'Gen_compact.v', 'Gen_sqlbatch.v']
+GEN = ['Gen_path.v', 'Gen_compact.v', 'Gen_sqlbatch.v', 'Gen_compact_fmt.v']
 TECHNIQUE = ('Coq proof (refinement of every back-end model to the abstract map; injectivity of the generated path / '
              'slot functions) + fail-closed translation of the path, slot and batching code + correspondence check of the '
              'models against the real back-ends on colliding histories')
@@ -1330,6 +1330,9 @@ def run(ctx):
 
     terms, descr = [], []
     bterms, bdescr = [], []
+    cterms, cdescr = {'compact1': [], 'compact2': []}, {'compact1': [], 'compact2': []}
+    cmax = ctx.n(14, 150)
+    png_of = dict((tuple(px), pay.png[i]) for i, px in enumerate(pay.pixels))
     for cfg, ops, origin in todo:
         outs = run_history(ctx, pay, cfg, ops)
         ctx.case((cfg_name(cfg), repr(ops)), nontrivial_history(ops),
@@ -1338,6 +1341,33 @@ def run(ctx):
         ctx.count('origin=' + origin.split(':')[0])
         ctx.count('ops', len(ops))
         oracle(ctx, pay, cfg, ops, outs, origin)
+        # compact caches: the same history on the byte-level model (payload = the bytes of the PNG file)
+        if cfg['kind'] in COMPACT_KINDS and len(cterms[cfg['kind']]) < cmax \
+                and not any(o[0] in ('store_fault', 'grow') for o in ops) \
+                and not any(r[0] == 'raised' for r in outs):
+            def bl(pixels):
+                return 'None' if pixels is None else '(Some %s)' % llit(list(png_of.get(tuple(pixels), b'?')))
+
+            def bop(o):
+                k = o[0]
+                if k == 'store':
+                    return '(Store %s %s)' % (addr_lit(o[1]), llit(list(pay.png[o[2]])))
+                if k == 'store_many':
+                    return '(StoreMany [%s])' % '; '.join('(%s, %s)' % (addr_lit((c[0], c[1], c[2], o[2])), llit(list(pay.png[pid])))
+                                                        for (c, pid) in o[1])
+                return op_lit(pay, o)
+
+            def bout(r):
+                if r[0] == 'load' and r[1] == (r[2] is not None):
+                    return '(OLoad %s)' % bl(r[2])
+                if r[0] == 'load_many':
+                    return '(OLoadMany %s [%s])' % (blit(r[1]), '; '.join(bl(v) for v in r[2]))
+                return out_lit(r)
+            pairs = [(o, r) for (o, r) in zip(ops, outs) if o[0] != 'reopen']
+            cterms[cfg['kind']].append('([%s],\n [%s])' % (';\n  '.join(bop(o) for (o, _) in pairs),
+                                                          '; '.join(bout(r) for (_, r) in pairs)))
+            cdescr[cfg['kind']].append({'backend': cfg, 'origin': origin, 'history': ops if len(ops) <= 40 else ops[:40] + ['...'],
+                                        'payloads': 'PNG bytes of the payload ids'})
         big = origin == 'big-bulk-load'
         # re-opening is the identity of the models (their state is the persistent state): not part of the term
         # a store that failed half way is, for the models, the store it turned out to be (or nothing); growing a
@@ -1363,6 +1393,11 @@ def run(ctx):
     checker = "fun c => let '(b, ops, outs) := c in outs_eqb (model_outs b ops) outs"
     ctx.corr_check('histories', IMPORTS, 'backend * list op * list out', terms, checker,
                    lambda i: descr[i], shard=min(12, max(1, len(terms) // 32 + 1)), defs=DEFS)
+    for kind, fn in (('compact2', 'v2_bytes_outs'), ('compact1', 'v1_bytes_outs')):
+        ctx.corr_check('compact_bytes_' + kind[-1:].replace('2', 'v2').replace('1', 'v1'),
+                       IMPORTS + ' Bytes Bundle CompactBytes', 'list op * list out', cterms[kind],
+                       "fun c => outs_eqb (%s (fst c)) (snd c)" % fn,
+                       (lambda k: (lambda i: cdescr[k][i]))(kind), shard=6, defs=DEFS)
     ctx.corr_check('bulk_load_batches', IMPORTS, 'backend * list op * list out', bterms, checker,
                    lambda i: bdescr[i], shard=1, defs=DEFS)
 
